@@ -200,6 +200,10 @@ def forZipEnumFrom {α σ : Type} (a b : Slice α) (f : Nat → α → α → σ
 def forZipEnum {α σ : Type} (a b : Slice α) (init : σ) (f : Nat → α → α → σ → Exec σ) : Exec σ :=
   forZipEnumFrom a b f (min a.size b.size) 0 init
 
+/-- marks a nested block of a function that may `return` early: it yields `some result` when it
+returned and `none` when control falls through to the statements after it -/
+def mayReturn {α : Type} (x : Exec (Option α)) : Exec (Option α) := x
+
 /-- `TypeId::of::<T>()` for the types `transpose_matrix` distinguishes -/
 inductive RTy where
   | f32 | f64 | u32 | u64 | other
